@@ -40,8 +40,8 @@ theorem fold_good (I : DA) (hwf : WF I) (g : Nat → Bool) (ps : List Nat) (hnd 
       apply ih hnd' _ hs
       intro q hq hgq; exact hact q (by simp [hq]) hgq
 
-theorem round_good (I : DA) (hwf : WF I) (np : Nat) (st : St) (h : Good I st) : Good I (round I np st) := by
-  unfold round
+theorem round_good (I : DA) (hwf : WF I) (np : Nat) (st : St) (h : Good I st) : Good I (gsRound I np st) := by
+  unfold gsRound
   apply fold_good I hwf (active I st) (List.range np) List.nodup_range st h
   intro p _ hact
   simp only [active, Bool.and_eq_true, decide_eq_true_eq] at hact
